@@ -1,6 +1,6 @@
 (* C07 — property theorems (parametric in the routing tables, in str.lower and in the MIME database).
    Nothing but statements closed by `exact`, each followed by Print Assumptions. *)
-From S2T Require Import Lib.PyStr C07.Model C07.Proofs.
+From S2T Require Import Lib.PyStr C07.Model C07.Proofs C07.Tail.
 
 (* is_supported_file(p) is true exactly when get_extractor(p) returns an extractor *)
 Theorem C07_supported_iff_extractor :
@@ -63,3 +63,19 @@ Theorem C07_alias_as_base :
     file_type_from_extension T (stem ++ DOT :: a) = file_type_from_extension T (stem ++ DOT :: b).
 Proof. intros T a b stem H. exact (alias_as_base T a b stem (wf_WF T H)). Qed.
 Print Assumptions C07_alias_as_base.
+
+(* characters after the extension belong to the trailing extension: appending anything without '.' and '/' to a
+   path extends its extension (or leaves it without one) - "x.docx\n" has the extension ".docx\n" *)
+Theorem C07_appended_chars_extend_extension :
+  forall p t : str, forallb not_dot t = true -> forallb not_slash t = true ->
+    splitext_ext (p ++ t) = match splitext_ext p with [] => [] | e => e ++ t end.
+Proof. exact splitext_append. Qed.
+Print Assumptions C07_appended_chars_extend_extension.
+
+(* if no key of the routing tables ends with the character c, no path ending in c is routed by extension, and both
+   entry points agree on that (tail_ok is decided for today's tables and a list of characters in Inst.v) *)
+Theorem C07_trailing_char_unsupported :
+  forall (T : tables) (c : N) (p : str), tail_ok c T = true ->
+    get_extractor_lower T (p ++ [c]) None = NotSupported /\ is_supported_lower T (p ++ [c]) None = false.
+Proof. exact tail_unsupported. Qed.
+Print Assumptions C07_trailing_char_unsupported.
